@@ -9,7 +9,8 @@ import (
 
 // Seeded random cases (binding B2): shapes with parameters outside the small
 // sets TLC enumerates (coordinates in -6..6, radii 1..6, denominators 1/2/4,
-// nested translations and combinators).  Only admissible parameters are
+// nested translations and combinators; every other case at a binary magnitude
+// 2^e2 other than 1, e2 in -40..40: shapes of size 1e-12 .. 1e12).  Only admissible parameters are
 // produced (radii and sizes > 0, 2*ra >= rb, integer-length plane normals);
 // this is input preparation, the judgement of the values is TLC's.
 
@@ -155,14 +156,19 @@ func GenRandom(out string, seed int64, n int) error {
 	enc := json.NewEncoder(w)
 	r := rand.New(rand.NewSource(seed))
 	dens := []int{1, 2, 4}
+	exps := []int{-40, -20, -12, -5, -2, 3, 12, 20, 40}
 	for i := 0; i < n; i++ {
 		s := randomShape(r, 0)
 		c := struct {
 			K     string  `json:"k"`
 			Den   int     `json:"den"`
+			E2    int     `json:"e2"`
 			Shape Shape   `json:"shape"`
 			Lat   Lattice `json:"lat"`
 		}{K: "sdf", Den: dens[r.Intn(3)], Shape: s, Lat: LatticeFor(s)}
+		if i%2 == 1 {
+			c.E2 = exps[(i/2+int(seed))%len(exps)]
+		}
 		if err := enc.Encode(c); err != nil {
 			return err
 		}
